@@ -22,6 +22,6 @@ MANIFEST_ENTRY = dict(
     category='other',
     engine='bounded',
     technique='sidecar contracts on the real functions: wiring / closed-form obligations from the AST discharged by z3 and the ring normaliser where the functions are within reach; bounded run-time contracts with independent oracles for the rest (never counted as proved)',
-    text='Discharged from the real source on every run (all values, stated small shapes): pickle wiring; to_file: header text, logical (C-order) data and mask lines, format strings, gzip/plain open mode, close; from_file on the same header text (new, label-free and pre-1.3 formats): metadata round trip; generic array_to_file / array_from_file. Bounded run-time contracts (never counted as proved): File, gzip, pickle and generic array round trips over random spectra with exact printed-precision oracle.',
+    text='Discharged from the real source on every run (all values, stated small shapes): pickle wiring; to_file: header text, logical (C-order) data and mask lines, format strings, gzip/plain open mode, close; from_file on the same header text (new, label-free, labels with outer blanks, and pre-1.3 formats): metadata round trip; generic array_to_file / array_from_file. Bounded run-time contracts (never counted as proved): File, gzip, pickle and generic array round trips over random spectra with exact printed-precision oracle.',
     note='bounded: see coverage.bounded.drivers[].bound in the evidence file for the exact domain of every driver',
 )
